@@ -138,6 +138,11 @@ mod n {
                         }
                         let out_slash = slash.arg(format!("{}/", dir)).output().expect("spawn hulc2model");
                         let out_rel = rel.current_dir(dirs[k].parent().unwrap()).arg(&name).output().expect("spawn hulc2model");
+                        if extra {
+                            // the option given twice is still "with the option": the last argument is the directory
+                            let twice = Command::new(bin("hulc2model")).arg("--use-extra").arg("--use-extra").arg(&dir).output().expect("spawn hulc2model");
+                            c.check("C01.option_repeated", twice.status.success() && twice.stdout == out.stdout, || format!("{}: `--use-extra --use-extra DIR` exits {:?} with {} bytes on stdout, `--use-extra DIR` gave {} bytes", name, twice.status.code(), twice.stdout.len(), out.stdout.len()));
+                        }
                         c.check("C01.path_shapes", out_slash.status.success() && out_rel.status.success() && out_slash.stdout == out.stdout && out_rel.stdout == out.stdout, || format!("{} extra={}: `{}/` exits {:?} ({} bytes), relative `{}` exits {:?} ({} bytes), absolute path gave {} bytes", name, extra, dir, out_slash.status.code(), out_slash.stdout.len(), name, out_rel.status.code(), out_rel.stdout.len(), out.stdout.len()));
                         c.nontrivial(format!("{} {}", name, extra));
                         c.sample(|| format!("{} extra={}: exit 0, {} bytes, {} walls, {} overrides", name, extra, stdout.len(), want.walls.len(), want.overrides.walls.len() + want.overrides.windows.len()));
